@@ -120,7 +120,7 @@ CasesAt(ph) ==
   \cup { << "ecdhpair", ai, bi, h >> : ai \in { 1, 2, 5 }, bi \in { 1, 6 }, h \in { 3 } }
   \cup { << "ecdhbad", si, h >> : si \in { 1, 5, 7 }, h \in { 0, 4 } }
   \cup { << "xdhexc", ei, ki, party, h >> : ei \in 1..Len(ExcEll), ki \in { 2, 5 }, party \in { 0, 1 }, h \in { 0, 2 } }
-  \cup { << "xdhsec", si, party, h >> : si \in 1..Len(SecretPool), party \in { 0, 1 }, h \in 0..3 }
+  \cup { << "xdhsec", si, party, h >> : si \in 1..Len(SecretPool), party \in { 0, 1, 2, 3, 256, 65536 }, h \in 0..3 }   \* any non-zero party value selects role B
   \cup { << "xdhpair", ai, bi, ui, role, h >> : ai \in { 1, 3, 5 }, bi \in { 2, 4, 6 }, ui \in (IF Thorough THEN 1..4 ELSE { 1 }), role \in 0..3, h \in { 0, 1 } }
 Cases == CasesAt(phase)
 
